@@ -121,7 +121,7 @@ class Hist:
         op = rng.choice(['create', 'create', 'add_new', 'add_ents', 'remove', 'remove_method', 'set_class', 'set_name',
                          'set_name', 'del_name', 'update', 'pop', 'setdefault', 'clear', 'make_unique', 'copy_same',
                          'copy_other', 'iter_mutate', 'search_mutate', 'reclass_world', 'name_world', 'reparse',
-                         'readd', 'del_other', 'set_other'])
+                         'readd', 'del_other', 'set_other', 'remove_again'])
         from srctools.vmf import Entity
         try:
             if op == 'create':
@@ -129,9 +129,11 @@ class Hist:
                 if rng.random() < 0.7:
                     kw[rng.choice(KEY_NAME)] = rng.choice(NAMES)
                 c = rng.choice(CLASSES[:-2] + ['info_target'])
-                vmf.create_ent(c, **kw)
+                e = vmf.create_ent(c, **kw)
+                if rng.random() < 0.2:
+                    e.hidden = True  # exported inside a hidden{} block and re-read through that branch of VMF.parse
                 self.adds += 1
-                self.log.append(f'create_ent map{mi} class={c!r} {kw}')
+                self.log.append(f'create_ent map{mi} class={c!r} {kw} hidden={e.hidden}')
             elif op == 'add_new':
                 keys = {rng.choice(KEY_CLASS): rng.choice(CLASSES[:-2])}
                 if rng.random() < 0.6:
@@ -297,6 +299,19 @@ class Hist:
                 new = VMF.parse(Keyvalues.parse(text))
                 self.maps[mi] = new
                 self.detached = [e for e in self.detached if e.map is not vmf]
+            elif op == 'remove_again':
+                # remove_ent()/remove() of an entity that is no longer in the map is tolerated ("already removed"):
+                # it must not disturb the index entries of the entities that are still there
+                cands = [e for e in self.detached if e.map is vmf and e not in vmf.entities]
+                if not cands:
+                    return
+                e = rng.choice(cands)
+                self.log.append(f'remove_again map{mi} class={e["classname"]!r} name={e["targetname"]!r} (not in the map)')
+                if rng.random() < 0.5:
+                    vmf.remove_ent(e)
+                else:
+                    e.remove()
+                self.nontrivial = True
             elif op == 'readd':
                 cands = [e for e in self.detached if e.map is vmf and e not in vmf.entities]
                 if not cands:
